@@ -12,35 +12,49 @@ Proof. intros. unfold Vlev. now rewrite Z.eqb_refl. Qed.
 Lemma Vfull_same : forall S I, length S = length I -> Vfull S S I = I.
 Proof. induction S as [|s S IH]; intros [|i I] H; cbn in *; try discriminate; auto. rewrite Vlev_same, IH; auto. Qed.
 
-Lemma levels_of_success : forall olds S I fs inc0 inc,
-  length olds = length S -> length fs = length S -> dyn_ok S I ->
-  req_inc_loop olds S fs inc0 = Ok inc -> levels_ok olds S (Vfull olds S I) I.
+(* a factor tuple all of whose entries are zero contributes nothing *)
+Lemma aff_at_zero_fs : forall fs I b, Forall (fun f => (f == 0)%Q) fs -> (aff_at b fs I == b)%Q.
 Proof.
-  induction olds as [|o olds IH]; intros S I fs inc0 inc H1 H2 HD HR.
-  - destruct S; [|discriminate]. inversion HD; subst. cbn. constructor.
-  - destruct S as [|z S]; [discriminate|]. destruct fs as [|f fs]; [discriminate|].
-    inversion HD as [|? i ? I' Hd HD']; subst. cbn in H1, H2. cbn [req_inc_loop] in HR. cbn [Vfull].
-    assert (HL : level_ok o z (Vlev o z i) i /\ exists inc1, req_inc_loop olds S fs inc1 = Ok inc).
-    { unfold Vlev. destruct (o =? z) eqn:E1.
-      - split; [left; lia|eauto].
-      - destruct (o <? z) eqn:E2.
-        + destruct (o =? 0) eqn:E3; [|discriminate]. split; [|eauto].
-          right; left. assert ((0 <=? o) && true = true) by lia. rewrite H. lia.
-        + destruct (z =? 0) eqn:E3; [|discriminate]. split; [|eauto].
-          right; right. assert (X : (0 <=? o) && false = false) by (destruct (0 <=? o); reflexivity). rewrite X.
-          destruct Hd as [[? ?]|[? ?]]; lia. }
-    destruct HL as [HL [inc1 HR1]]. constructor; auto. eapply IH; eauto.
+  induction fs as [|f fs IH]; intros [|i I] b H; cbn; try reflexivity.
+  inversion H; subst. rewrite IH by auto. rewrite H2. ring.
+Qed.
+
+(* the kernel, directly in terms of Vfull; the previous state may be shorter (then the surplus factors must be zero)
+   or longer than the new one *)
+Lemma req_inc_V_loop : forall olds S I fs inc0 inc b,
+  length fs = length S -> dyn_ok S I -> Forall (fun f => (f == 0)%Q) (skipn (length olds) fs) ->
+  req_inc_loop olds S fs inc0 = Ok inc ->
+  (aff_at b fs (Vfull olds S I) + inc == aff_at (b + inc0) fs I)%Q.
+Proof.
+  induction olds as [|o olds IH]; intros S I fs inc0 inc b HL HD HZ HR.
+  - cbn in HR. inversion HR; subst. cbn in HZ. cbn [Vfull].
+    assert (E : (aff_at b fs [] == b)%Q) by (destruct fs; reflexivity). rewrite E, (aff_at_zero_fs fs I _ HZ). reflexivity.
+  - destruct S as [|z S].
+    + destruct fs; [|discriminate]. cbn in HR. inversion HR; subst. cbn. reflexivity.
+    + destruct fs as [|f fs]; [discriminate|]. inversion HD as [|? i ? I' Hd HD']; subst. cbn in HL. cbn [req_inc_loop] in HR.
+      cbn [Vfull aff_at]. cbn [length skipn] in HZ.
+      unfold Vlev. destruct (o =? z) eqn:E1.
+      * rewrite (IH S I' fs inc0 inc _) by (auto; lia). apply aff_at_compat. ring.
+      * destruct (o <? z) eqn:E2.
+        -- destruct (o =? 0) eqn:E3; [|discriminate].
+           assert (X : (0 <=? o) && true = true) by lia. rewrite X.
+           rewrite (IH S I' fs (inc0 + f)%Q inc _) by (auto; lia). apply aff_at_compat.
+           replace (i - 1) with (i + -1) by lia. rewrite inject_Z_plus. cbn. ring.
+        -- destruct (z =? 0) eqn:E3; [|discriminate].
+           assert (X : (0 <=? o) && false = false) by (destruct (0 <=? o); reflexivity). rewrite X.
+           rewrite (IH S I' fs (inc0 - f * inject_Z o)%Q inc _) by (auto; lia). apply aff_at_compat.
+           assert (i = 0) by (destruct Hd as [[? ?]|[? ?]]; lia). subst i. cbn. ring.
 Qed.
 
 Lemma req_inc_V : forall olds S fs b_old b_new inc I,
   required_increment_from (b_new, S) (b_old, olds) fs = Ok inc -> dyn_ok S I ->
-  (aff_at b_old fs (Vfull olds S I) + inc == aff_at b_new fs I)%Q /\ length olds = length S /\ length fs = length S.
+  Forall (fun f => (f == 0)%Q) (skipn (length olds) fs) ->
+  (aff_at b_old fs (Vfull olds S I) + inc == aff_at b_new fs I)%Q /\ length fs = length S.
 Proof.
-  intros olds S fs b_old b_new inc I H HD. pose proof H as H'. unfold required_increment_from in H. cbn [fst snd] in H.
-  destruct (Nat.eqb (length S) (length olds)) eqn:E1; cbn in H; [|discriminate].
+  intros olds S fs b_old b_new inc I H HD HZ. unfold required_increment_from in H. cbn [fst snd] in H.
   destruct (Nat.eqb (length S) (length fs)) eqn:E2; cbn in H; [|discriminate].
-  apply Nat.eqb_eq in E1, E2. split; [|split; lia].
-  eapply required_increment_sound; [|exact H']. eapply levels_of_success; eauto; lia.
+  apply Nat.eqb_eq in E2. split; [|lia].
+  rewrite (req_inc_V_loop olds S I fs (b_new - b_old)%Q inc b_old) by (auto; lia). apply aff_at_compat. ring.
 Qed.
 
 Lemma aff_at_zeros : forall fs I b, Forall (fun i => i = 0) I -> (aff_at b fs I == b)%Q.
@@ -56,11 +70,30 @@ Proof.
   - apply IH. now apply andb_prop in H as [_ H].
 Qed.
 
-Lemma aff_at_fs_compat : forall fs fs' I b, qlist_eqb fs fs' = true -> (aff_at b fs I == aff_at b fs' I)%Q.
+Lemma forallb_zero : forall l, forallb (fun f => Qeq_bool f 0) l = true -> Forall (fun f => (f == 0)%Q) l.
+Proof. induction l; cbn; intros H; constructor; apply andb_prop in H as [H1 H2]; [now apply Qeq_bool_iff|auto]. Qed.
+
+Lemma tz_nil_l : forall b, qlist_tz_eqb [] b = forallb (fun f => Qeq_bool f 0) b.
+Proof. destruct b; reflexivity. Qed.
+Lemma tz_nil_r : forall a, qlist_tz_eqb a [] = forallb (fun f => Qeq_bool f 0) a.
+Proof. destruct a; reflexivity. Qed.
+
+Lemma aff_at_fs_compat : forall fs fs' I b, qlist_tz_eqb fs fs' = true -> (aff_at b fs I == aff_at b fs' I)%Q.
 Proof.
-  induction fs as [|f fs IH]; intros [|g fs'] I b H; cbn in H; try discriminate; [reflexivity|].
-  apply andb_prop in H as [H1 H2]. apply Qeq_bool_iff in H1. destruct I as [|i I]; cbn; [reflexivity|].
-  rewrite (IH fs' I _ H2). apply aff_at_compat. rewrite H1. reflexivity.
+  induction fs as [|f fs IH]; intros fs' I b H.
+  - rewrite tz_nil_l in H. assert (E : (aff_at b [] I == b)%Q) by reflexivity. rewrite E. symmetry.
+    apply aff_at_zero_fs. now apply forallb_zero.
+  - destruct fs' as [|g fs'].
+    + rewrite tz_nil_r in H. assert (E : (aff_at b [] I == b)%Q) by reflexivity. rewrite E. apply aff_at_zero_fs. now apply forallb_zero.
+    + cbn in H. apply andb_prop in H as [H1 H2]. apply Qeq_bool_iff in H1. destruct I as [|i I]; cbn; [reflexivity|].
+      rewrite (IH fs' I _ H2). apply aff_at_compat. rewrite H1. reflexivity.
+Qed.
+
+Lemma tz_skipn : forall a b, qlist_tz_eqb a b = true -> Forall (fun f => (f == 0)%Q) (skipn (length a) b).
+Proof.
+  induction a as [|x a IH]; intros b H.
+  - rewrite tz_nil_l in H. cbn. now apply forallb_zero.
+  - destruct b as [|y b]; [cbn; constructor|]. cbn in H. apply andb_prop in H as [_ H]. cbn. apply IH. exact H.
 Qed.
 
 (* a factor tuple whose key is () is all zero *)
@@ -68,11 +101,6 @@ Lemma strip_nil_zero : forall fs, strip_zeros fs = [] -> Forall (fun f => (f == 
 Proof.
   induction fs as [|f fs IH]; intros H; [constructor|]. cbn in H. destruct (strip_zeros fs) eqn:E; [|discriminate].
   destruct (Qeq_bool f 0) eqn:Ef; [|discriminate]. constructor; [now apply Qeq_bool_iff|auto].
-Qed.
-Lemma aff_at_zero_fs : forall fs I b, Forall (fun f => (f == 0)%Q) fs -> (aff_at b fs I == b)%Q.
-Proof.
-  induction fs as [|f fs IH]; intros [|i I] b H; cbn; try reflexivity.
-  inversion H; subst. rewrite IH by auto. rewrite H2. ring.
 Qed.
 Lemma zero_key_aff : forall fs I b, mk_key fs = [] -> (aff_at b fs I == b)%Q.
 Proof.
@@ -95,7 +123,7 @@ Section sim.
   Variable Fs : list (nat * list Q).
   Hypothesis Fs_inj : keys_inj_b Fs = true.
 
-  Lemma fs_inj : forall ch fs fs', In (ch, fs) Fs -> In (ch, fs') Fs -> mk_key fs = mk_key fs' -> qlist_eqb fs fs' = true.
+  Lemma fs_inj : forall ch fs fs', In (ch, fs) Fs -> In (ch, fs') Fs -> mk_key fs = mk_key fs' -> qlist_tz_eqb fs fs' = true.
   Proof.
     intros ch fs fs' H1 H2 Hk. unfold keys_inj_b in Fs_inj. rewrite forallb_forall in Fs_inj.
     specialize (Fs_inj _ H1). rewrite forallb_forall in Fs_inj. specialize (Fs_inj _ H2). cbn [fst snd] in Fs_inj.
@@ -111,6 +139,7 @@ Section sim.
   Definition Idep (K : nat * key -> Prop) (st : tstate) (s : vm) (I : list Z) : Prop :=
     forall ch k b olds, K (ch, k) -> dp st (ch, k) = Some (b, olds) ->
       exists r, alookup ck_eqb (ch, k) (v_regs s) = Some r /\
+                (exists fs0, In (ch, fs0) Fs /\ mk_key fs0 = k /\ length fs0 = length olds) /\
                 forall fs, In (ch, fs) Fs -> mk_key fs = k -> (r == aff_at b fs (Vfull olds (t_iters st) I))%Q.
 
   Definition same_ctl (s s1 : vm) : Prop :=
@@ -145,8 +174,8 @@ Section sim.
           destruct (HP c v0 Ev0) as (r & R1 & R2). exists r. cbn. split.
           -- rewrite (alookup_aset_other ck_eqb ck_eqb_spec); auto. congruence.
           -- rewrite R2. now symmetry.
-      + intros c k b0 olds HKc Hd. unfold dp in Hd. rewrite D1 in Hd. destruct (HD c k b0 olds HKc Hd) as (r & R1 & R2).
-        exists r. cbn. split.
+      + intros c k b0 olds HKc Hd. unfold dp in Hd. rewrite D1 in Hd. destruct (HD c k b0 olds HKc Hd) as (r & R1 & R0 & R2).
+        exists r. cbn. split; [|split; [exact R0|]].
         * rewrite (alookup_aset_other ck_eqb ck_eqb_spec); auto. intros X. inversion X; subst. apply (HK _ HKc). reflexivity.
         * rewrite I1. exact R2.
       + repeat split; auto.
@@ -166,13 +195,13 @@ Section sim.
   Lemma ch_indexed : forall ch b fs st c1 st1 cmds pre post s K I,
     tr_set_indexed_nz ch b fs st = Ok (c1, st1) -> cmds = pre ++ c1 ++ post -> v_pc s = length pre ->
     (ch < length (v_cur s))%nat -> Pact st s -> Pplain st s -> Idep K st s I -> Knz K ->
-    K (ch, mk_key fs) -> In (ch, fs) Fs -> length (t_iters st) = length I -> dyn_ok (t_iters st) I ->
+    K (ch, mk_key fs) -> In (ch, fs) Fs -> length fs = length I -> length (t_iters st) = length I -> dyn_ok (t_iters st) I ->
     exists s1, reach cmds s s1 /\ v_pc s1 = (length pre + length c1)%nat /\ Pact st1 s1 /\ Pplain st1 s1 /\ Idep K st1 s1 I /\
                same_ctl s s1 /\ (exists v, nth_error (v_cur s1) ch = Some (Some v) /\ (v == aff_at b fs I)%Q) /\
                (forall j, j <> ch -> nth_error (v_cur s1) j = nth_error (v_cur s) j) /\
                (forall ck, ck <> (ch, mk_key fs) -> alookup ck_eqb ck (v_regs s1) = alookup ck_eqb ck (v_regs s)).
   Proof.
-    intros ch b fs st c1 st1 cmds pre post s K I HT Hc Hpc Hlt HA HP HD HK HKk HIn HLen HDyn.
+    intros ch b fs st c1 st1 cmds pre post s K I HT Hc Hpc Hlt HA HP HD HK HKk HIn HLfs HLen HDyn.
     destruct (set_indexed_summ _ _ _ _ _ _ HT) as (A1 & P1 & D1 & I1 & L1).
     assert (Hnz : mk_key fs <> []) by (apply (HK _ HKk)).
     (* what must be shown once the new register value v (with cur[ch] = Some v, reg = Some v) is known *)
@@ -190,16 +219,20 @@ Section sim.
         rewrite Or; auto. intros X. inversion X. congruence.
       - intros c k b0 olds HKc Hd. rewrite D1 in Hd. destruct (ck_eqb (c, k) (ch, mk_key fs)) eqn:Ec.
         + apply ck_eqb_spec in Ec. inversion Ec; subst c k. inversion Hd; subst b0 olds. exists v. split; auto.
+          split; [exists fs; repeat split; auto; congruence|].
           intros fs' HIn' Hk'. rewrite I1, Vfull_same by auto. rewrite Hv. apply aff_at_fs_compat.
           apply (fs_inj ch); auto.
         + assert (Hne : (c, k) <> (ch, mk_key fs)).
           { intros X. rewrite X in Ec. assert (Y : ck_eqb (ch, mk_key fs) (ch, mk_key fs) = true) by now apply ck_eqb_spec. congruence. }
-          destruct (HD c k b0 olds HKc Hd) as (r & R2 & R3). exists r. rewrite Or by auto. split; auto. rewrite I1. exact R3. }
+          destruct (HD c k b0 olds HKc Hd) as (r & R2 & R0 & R3). exists r. rewrite Or by auto. split; auto. split; [exact R0|].
+          rewrite I1. exact R3. }
     unfold tr_set_indexed_nz in HT.
     destruct (alookup ck_eqb (ch, mk_key fs) (t_deps st)) as [[b_old olds]|] eqn:Eprev.
     - destruct (required_increment_from (b, t_iters st) (b_old, olds) fs) as [inc|] eqn:Einc; cbn [bind] in HT; [|discriminate].
-      destruct (req_inc_V _ _ _ _ _ _ I Einc HDyn) as (Hk & _ & _).
-      destruct (HD ch (mk_key fs) b_old olds HKk Eprev) as (r & R1 & R2). specialize (R2 fs HIn eq_refl).
+      destruct (HD ch (mk_key fs) b_old olds HKk Eprev) as (r & R1 & (fs0 & HIn0 & Hk0 & HL0) & R2). specialize (R2 fs HIn eq_refl).
+      assert (HZ : Forall (fun f => (f == 0)%Q) (skipn (length olds) fs)).
+      { rewrite <- HL0. apply tz_skipn. apply (fs_inj ch); auto. }
+      destruct (req_inc_V _ _ _ _ _ _ I Einc HDyn HZ) as (Hk & _).
       destruct (negb (Qeq_bool inc 0) || negb (opt_key_is (alookup Nat.eqb ch (t_active st)) (mk_key fs))) eqn:E;
         injection HT as <- Est.
       + destruct (set_nth_ok ch (Some (r + inc)%Q) (v_cur s) Hlt) as (cur' & Es & Ln & Nn & On).
